@@ -349,7 +349,56 @@ def r8(ctx):
     ctx.floor(R, 2)
 
 
+def r9(ctx):
+    R = "C04-R9"
+    ctx.rule(R, "a crashed or bounced host's tasks are dropped in the same environment they were polled in: Sim::step enters the host's "
+                "filesystem (turmoil_fs::enter; with the ring feature turmoil_io_uring::host::enter) around Rt::tick; the destructors that "
+                "Rt::crash / Rt::bounce run (a BufWriter flushing, a lock-file guard removing its file) use the same thread-locals, so the "
+                "functions of Sim that call Rt::crash / Rt::bounce must enter the host's filesystem first. Without it the first such destructor "
+                "panics (`no Fs is current`; tokio swallows one panic per task: the work is silently not done), a second one in the same task "
+                "aborts the process")
+    if ctx.config not in ("all", "fs", "fs_iou"):
+        ctx.info(R, "feature-off", "", "unstable-fs not enabled in this configuration: nothing to analyse")
+        return
+    ENTER = re.compile(r"^turmoil_fs::enter$")
+    n = 0
+    bad = []
+    for b in sorted(ctx.w.bodies.values(), key=lambda b: b.id):
+        if not b.id.startswith("turmoil::sim::Sim::") or "::tests::" in b.id:
+            continue
+        for bb, t in b.calls(re.compile(r"^turmoil::rt::Rt::(crash|bounce)$")):
+            n += 1
+            root = b
+            while root.parent and root.parent in ctx.w.bodies:
+                root = ctx.w.bodies[root.parent]
+            # entered here, or in the function that runs this closure (run_with_hosts) before it calls the closure
+            ok = any(b.dominated_by_block(bb, eb) for eb, _ in b.calls(ENTER))
+            if not ok:
+                for fb in ctx.w.family(root.id):
+                    if any(True for _ in fb.calls(ENTER)):
+                        ok = True
+                if not ok:
+                    for cb, cbb, ct in who_calls(ctx.w, root.id):
+                        pass
+                    # helpers the root hands the closure to
+                    for hb_, hbb, ht in [(root, x, y) for x, y in root.calls(re.compile(r"^turmoil::sim::Sim::"))]:
+                        hb = ctx.w.bodies.get(ht["f"])
+                        if hb and any(True for fb in ctx.w.family(hb.id) for _ in fb.calls(ENTER)):
+                            ok = True
+            if not ok:
+                bad.append((root.id, t["f"].rsplit("::", 1)[1], t["s"]))
+    ctx.inst(R, "tasks-dropped-with-fs-entered", n >= 2 and not bad, bad[0][2] if bad else "", f"{n} crash / bounce sites run with the host's filesystem entered" if n >= 2 and not bad else
+             (f"`{bad[0][0]}` calls Rt::{bad[0][1]} - which drops the host's tasks and runs their destructors - without entering the host's filesystem "
+              f"({len(bad)} of {n} sites): a destructor that touches the fs panics with `no Fs is current`, the flush / lock-file removal is silently lost on a bounce, "
+              "and two such destructors in one task abort the process" if bad else f"only {n} Rt::crash / Rt::bounce call sites found in Sim: re-derive"))
+    ctx.floor(R, 1)
+
+
 def run(ctx):
+    r9(ctx)
+    if ctx.config in ("all", "fs", "fs_iou"):
+        from . import C07
+        C07.r2(ctx)   # Fs::crash leaves nothing of the old incarnation behind: pending log, unsynced entries, page cache
     r8(ctx)
     scan_rule(ctx, "C04")
     r1(ctx)
